@@ -27,6 +27,7 @@
 (*                      one byte, also when the flag says four             *)
 (*   "ZeroLenNoData"    a segment with data length 0 has no raw_data in    *)
 (*                      the reader's dictionary; the writer requires it    *)
+(*                      (KeyError) instead of writing no data              *)
 (***************************************************************************)
 EXTENDS Integers, Sequences, FiniteSets, TLC
 LOCAL SeqX == INSTANCE SequencesExt
@@ -97,7 +98,7 @@ ReadAllStd(b, p) == IF p >= Len(b) THEN <<>>
 FileHeader == FILE_ID \o <<1>> \o BE32(1)
 ParseFileStd(b) == IF Len(b) >= 13 /\ SubSeq(b, 1, 13) = FileHeader THEN ReadAllStd(b, 13)
                    ELSE <<Seg(-2, 0, FALSE, FALSE, 0, <<>>, <<0>>, <<>>)>>
-EOPSeg(num, page) == Seg(num, TYPE_EOP, FALSE, FALSE, page, <<>>, <<0>>, <<>>)
+EOPSeg(num, page) == Seg(num, TYPE_EOP, FALSE, page > 255, page, <<>>, <<0>>, <<>>)
 EOFSeg(num) == Seg(num, TYPE_EOF, FALSE, FALSE, 0, <<>>, <<0>>, <<>>)
 
 \* ------------------------------------------------------------------ JBIG2StreamReader, one segment
@@ -142,13 +143,13 @@ ParseSegment(b, p0, dev) ==
   IF ~Avail(b, lenpos, 4) THEN Res(NoDict, Len(b), "short") ELSE                \* data_length -> parse_data_length
   LET dlen == U32(b, lenpos)
       dend == IF lenpos + 4 + dlen > Len(b) THEN Len(b) ELSE lenpos + 4 + dlen    \* stream.read(length) may come back short
-      hasdata == dlen # 0 \/ "ZeroLenNoData" \notin dev IN
+      hasdata == dlen # 0 IN                                                    \* `if length:` - no raw_data entry otherwise
   Res(Dict(num, deferred, palong, type, rc, retain, refs, page, dlen, hasdata, SubSeq(b, lenpos + 5, dend)), dend, "ok")
 
 \* the dictionary a correct reader builds for an abstract segment (what ParseSegment(EncStd(s)) must be)
 DictOf(s) == LET n == Len(s.refs) IN
   Dict(s.num, s.deferred, s.palong, s.type, n, IF n <= 4 THEN Pad(s.retain, 5) ELSE Pad(s.retain, 8 * CeilDiv(n + 1, 8)), s.refs,
-       s.page, Len(s.data), TRUE, s.data)
+       s.page, Len(s.data), Len(s.data) # 0, s.data)
 
 \* ------------------------------------------------------------------ JBIG2StreamWriter, one segment
 \* <<bytes, status>>  status: "ok" | "struct.error" | "KeyError"
@@ -161,12 +162,12 @@ EncodeRetention(d, dev) ==
         <<224 + (cnt \div 16777216), (cnt \div 65536) % 256, (cnt \div 256) % 256, cnt % 256>> \o RetainBytes(d.retain, nb))
   \o RefsEnc(d.refs, w)
 EncodeSegment(d, dev) ==
-  IF d.ref_count <= 4 /\ Len(d.retain) > 8 THEN <<(<<>>), "struct.error">>
-  ELSE IF "PageAssocShort" \in dev /\ d.page > 255 THEN <<(<<>>), "struct.error">>
-  ELSE IF ~d.hasdata THEN <<(<<>>), "KeyError">>
+  IF "PageAssocShort" \in dev /\ d.page > 255 THEN <<(<<>>), "struct.error">>
+  ELSE IF ~d.hasdata /\ "ZeroLenNoData" \in dev THEN <<(<<>>), "KeyError">>
   ELSE <<BE32(d.number) \o <<EncodeFlags(d)>> \o EncodeRetention(d, dev)
          \o (IF d.palong /\ "PageAssocShort" \notin dev THEN BE32(d.page) ELSE <<d.page>>)
          \o BE32(d.dlen) \o d.data, "ok">>
-EOPDict(num, page) == Dict(num, FALSE, FALSE, TYPE_EOP, 0, <<>>, <<>>, page, 0, TRUE, <<>>)
+\* (the appended segments carry no page_assoc_long entry: the writer then decides by the page number)
+EOPDict(num, page) == Dict(num, FALSE, page > 255, TYPE_EOP, 0, <<>>, <<>>, page, 0, TRUE, <<>>)
 EOFDict(num) == Dict(num, FALSE, FALSE, TYPE_EOF, 0, <<>>, <<>>, 0, 0, TRUE, <<>>)
 =============================================================================
